@@ -187,7 +187,9 @@ def run_case(case):
                                                  C.short([B[i][1] for i in un_b][:4]))})
                 break
             # (rows with an empty pattern are parametric components of vector constraints: not the horizon's business)
-            hor_eq = [a for a in atA if patA[a[4]] and not (patA[a[4]] & trajA) and a[0] == "eq"]
+            # system rows only: a declared constraint whose instance happens to involve nothing but the horizon is a
+            # constant row of the fixed-time twin (same residual there)
+            hor_eq = [a for a in atA if a[2] == -1 and patA[a[4]] and not (patA[a[4]] & trajA) and a[0] == "eq"]
             if any(abs(a[1]) > 1e-7 * (1 + abs(c) + abs(c0)) for a in hor_eq):
                 res["violations"].append({"kind": "grid-rows-violated", "mech": "C11|horizon-only-equality-violated",
                                           "detail": "T=%g t0=%g: horizon/grid equality rows not satisfied at the "
